@@ -113,6 +113,11 @@ int main(int argc, char** argv) {
         if (c % 3 == 0) { cc = true; cg = true; }
         std::optional<double> split;
         switch (rng.range(0, 3)) { case 0: split = std::nullopt; break; case 1: split = radii[2]; break; case 2: split = radii[nr - 3]; break; default: split = std::nullopt; }
+        if (c % 4 == 1) {   // many circles on the fine level, automatic (small) split on the coarse level, caches on
+            nr = 9; nth = (c % 8 == 1) ? 8 : 16; cc = true; cg = true;
+            random_grid(rng, nr, nth, c % 8 == 5, radii, angles, Rmax);
+            split = radii[nr - 3];
+        }
         std::printf("# case %d\n", c);
         try {
             auto lev0 = make_level(0, std::make_unique<PolarGrid>(radii, angles, split), pb, cc, cg);
